@@ -2,6 +2,7 @@ import Model.Attempt
 import Proofs.Lemmas.Attempt
 import Proofs.C15
 import Proofs.C12
+import Proofs.Lemmas.QueueM
 /-!
 # C03 — settled recipients are never attempted again; one attempt in flight per message
 
@@ -88,5 +89,111 @@ theorem one_attempt_in_flight_per_message {pre : List (Nat × Nat)} (hpre : (pre
     (hr : C12.Reach (C12.start pre) s) :
     s.inflight.Nodup ∧ ∀ id ∈ s.inflight, (∀ t, (t, id) ∉ s.queued) ∧ id ∉ Sched.dIds s :=
   C12.one_attempt_in_flight hpre hr
+
+/-! ## The composed machine (Model/QueueM.lean): both parts in one transition system -/
+section composed
+open Slimta.QM
+open Slimta.Sched (sIds)
+variable {fb : Bool} {pre : List (Nat × Nat)} {rc : Nat → List Rcpt} {nn : Nat → Bool}
+
+/-- **Every hand-off is for exactly the unsettled recipients**, under every interleaving: whenever a step of the composed machine
+    hands message `id` to the relay (enqueue's own hand-off or a `_dequeue` task, whatever caused it), the recipients of that
+    attempt are the ones outstanding at that moment, and none of them has been reported delivered or failed for good before. -/
+theorem handoff_is_for_the_unsettled (hpre : (pre.map (·.1)).Nodup) (hrc : ∀ id ∈ pre.map (·.1), (rc id).Nodup) {q q' : State}
+    (hr : Reach fb (start pre rc nn) q) {l : Label} (hc : calm q l) (hs : step fb q l = some q')
+    (id : Nat) (rs : List Rcpt) (a : Nat) (hnew : q'.handed = (id, rs, a) :: q.handed) :
+    rs = outstanding q.s.rem q id ∧ ∀ x ∈ rs, x ∉ q.delivered id ∧ x ∉ (q.failed id).map Prod.fst := by
+  have h := reach_inv hpre hrc hr
+  have hv := vok_of_inv h.sched
+  have hL := h.led
+  have key : ∀ m, q.msgs id = some m → id ∉ q.s.rem → id ∉ q.s.retry → id ∉ q.s.retrying →
+      m.rcpts = outstanding q.s.rem q id ∧ ∀ x ∈ m.rcpts, x ∉ q.delivered id ∧ x ∉ (q.failed id).map Prod.fst := by
+    intro m hm h1 h2 h3
+    have hpn := pend_none_of hL (v := view q.s) h2 h3
+    have hout : outstanding q.s.rem q id = m.rcpts := by simp [outstanding, h1, hm, hpn]
+    refine ⟨hout.symm, ?_⟩
+    intro x hx
+    have hst : id ∈ sIds q.s := (hL.stored id).mp (by simp [hm])
+    cases ho : q.orig id with
+    | none => have := hL.orig id hst; simp [ho] at this
+    | some r =>
+      have hl := hL.ledger id r ho x
+      have hle := List.nodup_iff_count.mp (hL.nodup id r ho) x
+      have : 0 < m.rcpts.count x := List.count_pos_iff.mpr hx
+      have hl' : (q.delivered id).count x + ((q.failed id).map Prod.fst).count x + m.rcpts.count x = r.count x := by
+        rw [← hout]; exact hl
+      constructor
+      · intro hd; have := List.count_pos_iff.mpr hd; omega
+      · intro hd; have := List.count_pos_iff.mpr hd; omega
+  unfold step at hs
+  split at hs
+  · simp at hs
+  · rename_i s' hss
+    cases l with
+    | activate id' =>
+      simp only [toSched] at hss
+      obtain ⟨hw, _⟩ := sched_activate hss
+      have hna : id' ∉ q.s.active := (h.sched.written id' hw).1
+      have hna' : q.s.active.contains id' = false := by simpa using hna
+      simp only [hna', Bool.false_eq_true, if_false] at hs
+      obtain ⟨r, hro, hm⟩ := hL.fresh id' hw
+      simp only [hro, Option.some.injEq] at hs; subst hs
+      simp only [List.cons.injEq, Prod.mk.injEq, and_true] at hnew
+      obtain ⟨rfl, rfl, _⟩ := hnew
+      obtain ⟨w1, w2, w3, w4, _⟩ := hv.written id' hw
+      exact key ⟨r, 0⟩ hm w4 w2 w3
+    | dequeue id' c =>
+      simp only [toSched] at hss
+      simp only at hs
+      split at hs
+      · simp only [Option.some.injEq] at hs; subst hs
+        exact absurd hnew.symm (List.cons_ne_self _ _)
+      · rename_i hcond
+        simp only [Bool.or_eq_true, not_or, Bool.not_eq_true] at hcond
+        split at hs
+        · rename_i m hm
+          simp only [Option.some.injEq] at hs; subst hs
+          simp only [List.cons.injEq, Prod.mk.injEq, and_true] at hnew
+          obtain ⟨rfl, rfl, _⟩ := hnew
+          have hna : id' ∉ q.s.active := by simpa using hcond.2
+          have hnn : ¬ (id' ∈ q.s.inflight ∨ id' ∈ q.s.retry ∨ id' ∈ q.s.retrying ∨ id' ∈ q.s.rem) :=
+            fun hx => hna ((h.sched.act id').mpr hx)
+          exact key m hm (fun hx => hnn (Or.inr (Or.inr (Or.inr hx)))) (fun hx => hnn (Or.inr (Or.inl hx)))
+            (fun hx => hnn (Or.inr (Or.inr (Or.inl hx))))
+        · simp at hs
+    | write id' ts rcpts nn' =>
+      simp only at hs
+      split at hs
+      · simp only [Option.some.injEq] at hs; subst hs; exact absurd hnew.symm (List.cons_ne_self _ _)
+      · simp at hs
+    | done id' o =>
+      simp only at hs
+      split at hs
+      · simp at hs
+      · simp only [Option.some.injEq] at hs; subst hs; exact absurd hnew.symm (List.cons_ne_self _ _)
+    | retry id' w =>
+      simp only at hs
+      split at hs
+      · cases w <;> (simp only [Option.some.injEq] at hs; subst hs; exact absurd hnew.symm (List.cons_ne_self _ _))
+      · simp at hs
+    | requeue id' =>
+      simp only at hs
+      split at hs
+      · simp only [Option.some.injEq] at hs; subst hs; exact absurd hnew.symm (List.cons_ne_self _ _)
+      · simp at hs
+    | announce _ _ => simp only [Option.some.injEq] at hs; subst hs; exact absurd hnew.symm (List.cons_ne_self _ _)
+    | tick _ => simp only [Option.some.injEq] at hs; subst hs; exact absurd hnew.symm (List.cons_ne_self _ _)
+    | sched => simp only [Option.some.injEq] at hs; subst hs; exact absurd hnew.symm (List.cons_ne_self _ _)
+    | sleep => simp only [Option.some.injEq] at hs; subst hs; exact absurd hnew.symm (List.cons_ne_self _ _)
+    | poke => simp only [Option.some.injEq] at hs; subst hs; exact absurd hnew.symm (List.cons_ne_self _ _)
+    | flush => simp only [Option.some.injEq] at hs; subst hs; exact absurd hnew.symm (List.cons_ne_self _ _)
+    | remove _ => simp only [Option.some.injEq] at hs; subst hs; exact absurd hnew.symm (List.cons_ne_self _ _)
+
+/-- Part 2 carried to the composed machine: its scheduler component runs the scheduler model. -/
+theorem one_attempt_in_flight_composed (hpre : (pre.map (·.1)).Nodup) {q : QM.State} (hr : QM.Reach fb (QM.start pre rc nn) q) :
+    q.s.inflight.Nodup ∧ ∀ id ∈ q.s.inflight, (∀ t, (t, id) ∉ q.s.queued) ∧ id ∉ Sched.dIds q.s :=
+  C12.one_attempt_in_flight hpre (QM.reach_sched hr)
+
+end composed
 
 end Slimta.C03
